@@ -62,6 +62,8 @@ fn regret_value(rng: &mut Rng, style: u64) -> f32 {
         2 => (rng.range(-3, 3) as f32) * 0.5,
         3 => -(rng.unit() * 3e5) as f32,
         4 => (rng.unit() * 50.0) as f32,
+        6 => -(250.0 + rng.unit() * 150.0) as f32, // one-sided, crosses -3e5 after ~1000 epochs
+        7 => (250.0 + rng.unit() * 150.0) as f32,
         _ => {
             let m = f32::from_bits(0x3000_0000 + rng.below(0x1800_0000) as u32); // 4.6e-10 .. 1.8e19
             if rng.chance(1, 2) { m } else { -m }
@@ -78,6 +80,206 @@ fn d_spec(u: usize, r: f64) -> f64 {
         let x = (u as f64).powf(if r > 0.0 { ALPHA } else { OMEGA });
         x / (x + 1.0)
     }
+}
+
+
+/// one sequence of epochs at one information set (inputs only)
+struct Spec {
+    case: String,
+    n: usize,
+    len: usize,
+    start: usize,
+    edges: Vec<Edge>,
+    bucket: Bucket,
+    witnessed: bool,
+    prior: Vec<(f32, f32)>,
+    style: u64,
+    dist: bool,
+    rs: Vec<Vec<f32>>,
+    ps: Vec<Vec<f32>>,
+}
+
+/// what the real code did with it
+struct Outcome {
+    ok: bool,
+    fresh_walker: String,
+    fresh_epochs: usize,
+    walkers: Vec<String>,
+    counters: Vec<usize>,
+    stored: Vec<(f32, f32)>,
+    weights: Vec<f32>,
+    epochs: usize,
+    walker: String,
+}
+
+fn make_spec(rng: &mut Rng, case: usize, label: &str, force_len: Option<usize>, force_style: Option<u64>) -> Spec {
+        let n = 1 + rng.below(5) as usize;
+        let len = if let Some(l) = force_len { l } else { match case % 6 {
+            0 => 1 + rng.below(4) as usize,
+            1 => 1 + rng.below(40) as usize,
+            2 => 2000,
+            3 => CFR_DISCOUNT_PHASE - 5 + rng.below(40) as usize,
+            _ => 1 + rng.below(2000) as usize,
+        } };
+        let start = match rng.below(10) {
+            0 => 1 + rng.below(3) as usize,
+            1 => CFR_DISCOUNT_PHASE - 10 + rng.below(20) as usize,
+            2 => CFR_PRUNNING_PHASE - 10 + rng.below(20) as usize,
+            3 => rng.below(5000) as usize,
+            _ => 0,
+        };
+        let edges = menu(rng, n);
+        let bucket = Bucket::from((Path::from(rng.next() >> 4), Abstraction::from((rng.next() % 169) as u64), Path::from(rng.next() >> 4)));
+        // prior: what `witness` stores (regret 0, policy 1/n), or arbitrary values (a loaded profile)
+        let witnessed = rng.chance(3, 4);
+        let prior: Vec<(f32, f32)> = (0..n)
+            .map(|_| if witnessed { (0.0, 1.0 / n as f32) } else { ((rng.unit() * 100.0 - 50.0) as f32, rng.unit() as f32) })
+            .collect();
+        let style = force_style.unwrap_or_else(|| rng.below(8));
+        let dist = rng.chance(3, 4); // per-epoch strategies are distributions (else arbitrary non-negative weights)
+        let mut rs: Vec<Vec<f32>> = vec![];
+        let mut ps: Vec<Vec<f32>> = vec![];
+        for _ in 0..len {
+            rs.push((0..n).map(|_| regret_value(rng, style)).collect());
+            let mut p: Vec<f32> = (0..n).map(|_| if rng.chance(1, 6) { 0.0 } else { rng.unit() as f32 }).collect();
+            if dist {
+                if p.iter().all(|x| *x == 0.0) {
+                    p[0] = 1.0;
+                }
+                let s: f32 = p.iter().sum();
+                p.iter_mut().for_each(|x| *x /= s);
+            }
+            ps.push(p);
+        }
+
+        Spec { case: format!("{label} {case}"), n, len, start, edges, bucket, witnessed, prior, style, dist, rs, ps }
+}
+
+/// the real code: Profile::add_regret, add_policy, next, walker, weight
+fn simulate(spec: &Spec) -> Outcome {
+    let Spec { len, start, edges, bucket, prior, rs, ps, .. } = spec;
+    let (len, start) = (*len, *start);
+        let mut profile = Profile::default();
+        let fresh_walker = walker_of(&profile);
+        let fresh_epochs = profile.epochs();
+        for (e, (r, p)) in edges.iter().zip(prior.iter()) {
+            profile.verif_set_memory(bucket, e, *r, *p);
+        }
+        profile.verif_set_epochs(start);
+        let mut walkers = vec![walker_of(&profile)];
+        let mut counters = vec![profile.epochs()];
+        let ok = catch(AssertUnwindSafe(|| {
+            for s in 0..len {
+                let rmap: BTreeMap<Edge, f32> = edges.iter().cloned().zip(rs[s].iter().cloned()).collect();
+                let pmap: BTreeMap<Edge, f32> = edges.iter().cloned().zip(ps[s].iter().cloned()).collect();
+                profile.add_regret(bucket, &Regret::from(rmap));
+                profile.add_policy(bucket, &Policy::from(pmap));
+                counters.push(profile.next());
+                walkers.push(walker_of(&profile));
+            }
+        }));
+    if ok.is_none() {
+        return Outcome { ok: false, fresh_walker, fresh_epochs, walkers, counters, stored: vec![], weights: vec![], epochs: 0, walker: String::new() };
+    }
+    let stored: Vec<(f32, f32)> = edges.iter().map(|e| profile.verif_memory(bucket, e).expect("stored")).collect();
+    let weights: Vec<f32> = edges.iter().map(|e| profile.weight(bucket, e)).collect();
+    Outcome { ok: true, fresh_walker, fresh_epochs, walkers, counters, stored, weights, epochs: profile.epochs(), walker: walker_of(&profile) }
+}
+
+/// correspondence line + search oracle (f64 closed forms) for one sequence
+fn judge(run: &mut Run, spec: &Spec, out: &Outcome) {
+    let Spec { case, n, len, start, prior, style, dist, rs, ps, witnessed, .. } = spec;
+    let (n, len, start, style, dist, witnessed) = (*n, *len, *start, *style, *dist, *witnessed);
+    let Outcome { fresh_walker, fresh_epochs, walkers, counters, stored, weights, .. } = out;
+    let fresh_epochs = *fresh_epochs;
+        run.evaluations += 1;
+        let mut op = format!("seq {start} {n} {len}");
+        for (r, p) in prior.iter() {
+            op.push_str(&format!(" {} {}", r.to_bits(), p.to_bits()));
+        }
+        for s in 0..len {
+            for i in 0..n {
+                op.push_str(&format!(" {} {}", rs[s][i].to_bits(), ps[s][i].to_bits()));
+            }
+        }
+        let what = format!("seq {case}: start {start}, {n} actions, {len} epochs, regret style {style}, {} priors, {} strategies",
+            if witnessed { "witnessed" } else { "loaded" }, if dist { "normalised" } else { "unnormalised" });
+        if !out.ok {
+            run.line(&op, "panic");
+            run.fail("accumulation-panics", &what, "no abort", "panic");
+            return;
+        }
+        let mut ans = format!("{} {}", out.epochs, out.walker);
+        for i in 0..n {
+            ans.push_str(&format!(" {} {} {}", tok(stored[i].0), tok(stored[i].1), tok(weights[i])));
+        }
+        run.line(&op, &ans);
+        run.distinct(&op);
+        run.count(match len { 1..=4 => "len=1..4", 5..=40 => "len=5..40", 41..=389 => "len=41..389", 390..=1999 => "len=390..1999", _ => "len=2000" });
+        run.count(&format!("actions={n}"));
+        run.count(if start == 0 { "start=0" } else if start < CFR_DISCOUNT_PHASE { "start<discount-phase" } else { "start>=discount-phase" });
+        run.count(&format!("regret-style={style}"));
+
+        // ---- search oracle (f64 closed forms)
+        run.spec_checked += 1;
+        // traversers alternate, starting with player 0 on a fresh profile
+        if fresh_walker.as_str() != "0" || fresh_epochs != 0 {
+            run.fail("fresh-profile-not-player-0", &what, "epoch 0, walker 0", &format!("epoch {fresh_epochs}, walker {fresh_walker}"));
+        }
+        for s in 0..=len {
+            if counters[s] != start + s || walkers[s] != ((start + s) % 2).to_string() {
+                run.fail("walker-does-not-alternate", &format!("{what}, after {s} epochs"), &format!("counter {} walker {}", start + s, (start + s) % 2), &format!("counter {} walker {}", counters[s], walkers[s]));
+                break;
+            }
+        }
+        let tt = (start + len) as f64; // T + 1 when start = 0
+        for i in 0..n {
+            // average strategy: sum_s p_s ((start+s+1)/(start+len))^gamma  (+ prior (start/(start+len))^gamma)
+            let mut want = prior[i].1 as f64 * (start as f64 / tt).powf(GAMMA);
+            let mut mag = want.abs();
+            for s in 0..len {
+                let term = ps[s][i] as f64 * ((start + s + 1) as f64 / tt).powf(GAMMA);
+                want += term;
+                mag += term.abs();
+            }
+            let got = stored[i].1 as f64;
+            if (got - want).abs() > 1e-4 * mag + 1e-30 {
+                run.fail("policy-not-polynomially-weighted-sum", &format!("{what}, action {i}"), &format!("{want:e}"), &format!("{got:e}"));
+                break;
+            }
+        }
+        // normalised: the (s+1)^gamma-weighted mean of the per-epoch strategies
+        if start == 0 && dist {
+            let z: f64 = (0..len).map(|s| ((s + 1) as f64).powf(GAMMA)).sum();
+            for i in 0..n {
+                let want: f64 = (0..len).map(|s| ((s + 1) as f64).powf(GAMMA) * ps[s][i] as f64).sum::<f64>() / z;
+                let got = weights[i] as f64;
+                if (got - want).abs() > 1e-4 * want + 1e-6 {
+                    run.fail("average-strategy-not-weighted-mean", &format!("{what}, action {i}"), &format!("{want:e}"), &format!("{got:e}"));
+                    break;
+                }
+            }
+        }
+        // regret: sum_s r_s w_s, w_s = prod_{u>s} d_u (the range and monotonicity of the single
+        // factors the code applies is observed below, counter by counter)
+        for i in 0..n {
+            let mut w = vec![1.0f64; len + 1]; // w[s+1] for the vector of epoch s; w[0] for the prior
+            for s in (0..len).rev() {
+                w[s] = w[s + 1] * d_spec(start + s, rs[s][i] as f64);
+            }
+            let mut want = prior[i].0 as f64 * w[0];
+            let mut mag = want.abs();
+            for s in 0..len {
+                let term = rs[s][i] as f64 * w[s + 1];
+                want += term;
+                mag += term.abs();
+            }
+            let got = stored[i].0 as f64;
+            if (got - want).abs() > 1e-4 * mag + 1e-30 {
+                run.fail("regret-not-discounted-sum", &format!("{what}, action {i}"), &format!("{want:e}"), &format!("{got:e}"));
+                break;
+            }
+        }
 }
 
 fn main() {
@@ -146,153 +348,55 @@ fn main() {
     }
 
     for case in 0..nseq {
-        let n = 1 + rng.below(5) as usize;
-        let len = match case % 6 {
-            0 => 1 + rng.below(4) as usize,
-            1 => 1 + rng.below(40) as usize,
-            2 => 2000,
-            3 => CFR_DISCOUNT_PHASE - 5 + rng.below(40) as usize,
-            _ => 1 + rng.below(2000) as usize,
-        };
-        let start = match rng.below(10) {
-            0 => 1 + rng.below(3) as usize,
-            1 => CFR_DISCOUNT_PHASE - 10 + rng.below(20) as usize,
-            2 => CFR_PRUNNING_PHASE - 10 + rng.below(20) as usize,
-            3 => rng.below(5000) as usize,
-            _ => 0,
-        };
-        let edges = menu(&mut rng, n);
-        let bucket = Bucket::from((Path::from(rng.next() >> 4), Abstraction::from((rng.next() % 169) as u64), Path::from(rng.next() >> 4)));
-        // prior: what `witness` stores (regret 0, policy 1/n), or arbitrary values (a loaded profile)
-        let witnessed = rng.chance(3, 4);
-        let prior: Vec<(f32, f32)> = (0..n)
-            .map(|_| if witnessed { (0.0, 1.0 / n as f32) } else { ((rng.unit() * 100.0 - 50.0) as f32, rng.unit() as f32) })
-            .collect();
-        let style = rng.below(6);
-        let dist = rng.chance(3, 4); // per-epoch strategies are distributions (else arbitrary non-negative weights)
-        let mut rs: Vec<Vec<f32>> = vec![];
-        let mut ps: Vec<Vec<f32>> = vec![];
-        for _ in 0..len {
-            rs.push((0..n).map(|_| regret_value(&mut rng, style)).collect());
-            let mut p: Vec<f32> = (0..n).map(|_| if rng.chance(1, 6) { 0.0 } else { rng.unit() as f32 }).collect();
-            if dist {
-                if p.iter().all(|x| *x == 0.0) {
-                    p[0] = 1.0;
-                }
-                let s: f32 = p.iter().sum();
-                p.iter_mut().for_each(|x| *x /= s);
-            }
-            ps.push(p);
-        }
+        // every fourth sequence is long and one-sided so that accumulated values cross +-REGRET_MIN
+        let (fl, fs) = if case % 4 == 3 { (Some(1300 + rng.below(701) as usize), Some(6 + rng.below(2))) } else { (None, None) };
+        let spec = make_spec(&mut rng, case, "case", fl, fs);
+        let out = simulate(&spec);
+        judge(&mut run, &spec, &out);
+    }
 
-        // ---- the real code
-        let mut profile = Profile::default();
-        let fresh_walker = walker_of(&profile);
-        let fresh_epochs = profile.epochs();
-        for (e, (r, p)) in edges.iter().zip(prior.iter()) {
-            profile.verif_set_memory(&bucket, e, *r, *p);
+    // ---- several independent Profiles trained CONCURRENTLY on different threads at different
+    //      counters (short beside long, different starting counters); each one must still follow
+    //      the model and the closed forms
+    {
+        let threads = 8usize;
+        let per = if a.thorough() { 400 } else { 24 };
+        let mut specs: Vec<Vec<Spec>> = vec![];
+        for th in 0..threads {
+            let mut r = rng.fork();
+            specs.push((0..per).map(|k| {
+                let len = if th % 2 == 0 { Some(1500 + r.below(501) as usize) } else { Some(1 + r.below(60) as usize) };
+                make_spec(&mut r, k, &format!("concurrent thread {th} of {threads}, case"), len, None)
+            }).collect());
         }
-        profile.verif_set_epochs(start);
-        let mut walkers = vec![walker_of(&profile)];
-        let mut counters = vec![profile.epochs()];
-        let ok = catch(AssertUnwindSafe(|| {
-            for s in 0..len {
-                let rmap: BTreeMap<Edge, f32> = edges.iter().cloned().zip(rs[s].iter().cloned()).collect();
-                let pmap: BTreeMap<Edge, f32> = edges.iter().cloned().zip(ps[s].iter().cloned()).collect();
-                profile.add_regret(&bucket, &Regret::from(rmap));
-                profile.add_policy(&bucket, &Policy::from(pmap));
-                counters.push(profile.next());
-                walkers.push(walker_of(&profile));
-            }
-        }));
-        run.evaluations += 1;
-        let mut op = format!("seq {start} {n} {len}");
-        for (r, p) in &prior {
-            op.push_str(&format!(" {} {}", r.to_bits(), p.to_bits()));
-        }
-        for s in 0..len {
-            for i in 0..n {
-                op.push_str(&format!(" {} {}", rs[s][i].to_bits(), ps[s][i].to_bits()));
-            }
-        }
-        let what = format!("seq case {case}: start {start}, {n} actions, {len} epochs, regret style {style}, {} priors, {} strategies",
-            if witnessed { "witnessed" } else { "loaded" }, if dist { "normalised" } else { "unnormalised" });
-        if ok.is_none() {
-            run.line(&op, "panic");
-            run.fail("accumulation-panics", &what, "no abort", "panic");
-            continue;
-        }
-        let stored: Vec<(f32, f32)> = edges.iter().map(|e| profile.verif_memory(&bucket, e).expect("stored")).collect();
-        let weights: Vec<f32> = edges.iter().map(|e| profile.weight(&bucket, e)).collect();
-        let mut ans = format!("{} {}", profile.epochs(), walker_of(&profile));
-        for i in 0..n {
-            ans.push_str(&format!(" {} {} {}", tok(stored[i].0), tok(stored[i].1), tok(weights[i])));
-        }
-        run.line(&op, &ans);
-        run.distinct(&op);
-        run.count(match len { 1..=4 => "len=1..4", 5..=40 => "len=5..40", 41..=389 => "len=41..389", 390..=1999 => "len=390..1999", _ => "len=2000" });
-        run.count(&format!("actions={n}"));
-        run.count(if start == 0 { "start=0" } else if start < CFR_DISCOUNT_PHASE { "start<discount-phase" } else { "start>=discount-phase" });
-        run.count(&format!("regret-style={style}"));
-
-        // ---- search oracle (f64 closed forms)
-        run.spec_checked += 1;
-        // traversers alternate, starting with player 0 on a fresh profile
-        if fresh_walker != "0" || fresh_epochs != 0 {
-            run.fail("fresh-profile-not-player-0", &what, "epoch 0, walker 0", &format!("epoch {fresh_epochs}, walker {fresh_walker}"));
-        }
-        for s in 0..=len {
-            if counters[s] != start + s || walkers[s] != ((start + s) % 2).to_string() {
-                run.fail("walker-does-not-alternate", &format!("{what}, after {s} epochs"), &format!("counter {} walker {}", start + s, (start + s) % 2), &format!("counter {} walker {}", counters[s], walkers[s]));
-                break;
-            }
-        }
-        let tt = (start + len) as f64; // T + 1 when start = 0
-        for i in 0..n {
-            // average strategy: sum_s p_s ((start+s+1)/(start+len))^gamma  (+ prior (start/(start+len))^gamma)
-            let mut want = prior[i].1 as f64 * (start as f64 / tt).powf(GAMMA);
-            let mut mag = want.abs();
-            for s in 0..len {
-                let term = ps[s][i] as f64 * ((start + s + 1) as f64 / tt).powf(GAMMA);
-                want += term;
-                mag += term.abs();
-            }
-            let got = stored[i].1 as f64;
-            if (got - want).abs() > 1e-4 * mag + 1e-30 {
-                run.fail("policy-not-polynomially-weighted-sum", &format!("{what}, action {i}"), &format!("{want:e}"), &format!("{got:e}"));
-                break;
-            }
-        }
-        // normalised: the (s+1)^gamma-weighted mean of the per-epoch strategies
-        if start == 0 && dist {
-            let z: f64 = (0..len).map(|s| ((s + 1) as f64).powf(GAMMA)).sum();
-            for i in 0..n {
-                let want: f64 = (0..len).map(|s| ((s + 1) as f64).powf(GAMMA) * ps[s][i] as f64).sum::<f64>() / z;
-                let got = weights[i] as f64;
-                if (got - want).abs() > 1e-4 * want + 1e-6 {
-                    run.fail("average-strategy-not-weighted-mean", &format!("{what}, action {i}"), &format!("{want:e}"), &format!("{got:e}"));
-                    break;
-                }
-            }
-        }
-        // regret: sum_s r_s w_s, w_s = prod_{u>s} d_u (the range and monotonicity of the single
-        // factors the code applies is observed below, counter by counter)
-        for i in 0..n {
-            let mut w = vec![1.0f64; len + 1]; // w[s+1] for the vector of epoch s; w[0] for the prior
-            for s in (0..len).rev() {
-                w[s] = w[s + 1] * d_spec(start + s, rs[s][i] as f64);
-            }
-            let mut want = prior[i].0 as f64 * w[0];
-            let mut mag = want.abs();
-            for s in 0..len {
-                let term = rs[s][i] as f64 * w[s + 1];
-                want += term;
-                mag += term.abs();
-            }
-            let got = stored[i].0 as f64;
-            if (got - want).abs() > 1e-4 * mag + 1e-30 {
-                run.fail("regret-not-discounted-sum", &format!("{what}, action {i}"), &format!("{want:e}"), &format!("{got:e}"));
-                break;
+        let barrier = std::sync::Barrier::new(threads);
+        let outs: Vec<Vec<Outcome>> = std::thread::scope(|sc| {
+            let hs: Vec<_> = specs.iter().map(|mine| {
+                let barrier = &barrier;
+                sc.spawn(move || {
+                    barrier.wait();
+                    // the short-sequence threads repeat their work to stay busy beside the long ones
+                    mine.iter().map(|sp| {
+                        let mut o = simulate(sp);
+                        if sp.len < 100 {
+                            for _ in 0..20 {
+                                let again = simulate(sp);
+                                if !again.ok || again.stored.iter().zip(o.stored.iter()).any(|(x, y)| x.0.to_bits() != y.0.to_bits() || x.1.to_bits() != y.1.to_bits()) {
+                                    o = again; // keep a deviating repetition: the judge will name it
+                                    break;
+                                }
+                            }
+                        }
+                        o
+                    }).collect::<Vec<_>>()
+                })
+            }).collect();
+            hs.into_iter().map(|h| h.join().expect("worker")).collect()
+        });
+        for (mine, res) in specs.iter().zip(outs.iter()) {
+            for (sp, o) in mine.iter().zip(res.iter()) {
+                judge(&mut run, sp, o);
+                run.count("concurrent-sequence");
             }
         }
     }
@@ -325,9 +429,9 @@ fn main() {
     run.rule = format!(
         "{nseq} sequences at one information set: 1-5 actions, length in {{1..4, 1..40, 2000, around the discount-phase boundary {CFR_DISCOUNT_PHASE}, 1..2000}}, \
          counter starting at 0 (6/10) or 1..3 / around the discount boundary / around the pruning boundary / <5000, priors as stored by witness (3/4) or arbitrary as after load, \
-         6 regret styles (uniform +-100, sparse +-1e4 with zeros, half-integers with zeros, all negative down to the clamp, all positive, +- over 29 binary orders of magnitude), \
+         8 regret styles (uniform +-100, sparse +-1e4 with zeros, half-integers with zeros, all negative down to the clamp, all positive, +- over 29 binary orders of magnitude, one-sided -250..-400 and +250..+400; every fourth sequence is one-sided with 1300-2000 epochs so that accumulated regret crosses -+3e5), \
          per-epoch strategies normalised (3/4) or arbitrary non-negative with zeros; every epoch = real add_regret + add_policy + next; final stored regret, policy, weight(), counter, walker compared; \
-         plus Discount::policy, the regret factor seen through add_regret for 5 regret signs, Phase::from, walker, next at {} counters. A sequence is non-trivial when it has >= 1 epoch (all); distinct by the full op line",
+         plus 8 threads training independent profiles concurrently (long 1500-2000-epoch sequences beside repeated short ones, different counters), each judged like the others; plus Discount::policy, the regret factor seen through add_regret for 5 regret signs, Phase::from, walker, next at {} counters. A sequence is non-trivial when it has >= 1 epoch (all); distinct by the full op line",
         ts.len()
     );
     run.finish();
